@@ -1,7 +1,12 @@
 /-
-Line-protocol driver for the C09 models (LRUCache / CachedMatrix).
+Line-protocol driver for the C09 models (LRUCache / CachedMatrix / wrapper matrices).
 One op per input line, one observation line per op; same protocol as
-harness/c09.cpp.  Imports core-Lean model files only (native executable).
+harness/c09.cpp and harness/c09b.cpp.  Imports core-Lean model files only.
+
+The model that is run is the statement-level one (`CMG` over `LRUP`): fresh buffers hold junk until
+`base->row` overwrites them, every buffer access is bounds-checked (`FAULT` = an access outside a
+buffer), `swapLineIndices` performs the intrusive-list surgery of the C++ case by case, and every
+line carries the identity of its buffer.
 -/
 import SharkVerif.Model.Cache
 import SharkVerif.Model.KernelMatrices
@@ -9,34 +14,52 @@ open SharkVerif.Cache
 
 def baseEntry (a b : Nat) : Int := (a * 1000 + b + 1 : Nat)
 
+/-- contents of freshly allocated memory: never observable if the model is right -/
+def junk (_ : Nat) : Int := -777
+
 def showList (l : List Int) : String :=
   "[" ++ ",".intercalate (l.map toString) ++ "]"
 
-def showState (n : Nat) (c : LRU Int) : String :=
+def showState (n : Nat) (p : LRUP Int) : String :=
+  let c := p.core
   let lines := (List.range n).map fun i => showList (c.lines i)
-  s!"size={c.size} cached={c.cachedLines} lru={c.lru} " ++ " ".intercalate lines
+  let ids := (List.range n).map fun i => toString (p.bufferOf i)
+  s!"size={c.size} cached={c.cachedLines} lru={c.lru} " ++ " ".intercalate lines ++
+    " ids=[" ++ ",".intercalate ids ++ "]"
 
 /-! wrapper matrices over integer points with the linear kernel -/
 open SharkVerif.KM in
 inductive W where
   | kernel (m : Kernel Int) | reg (m : Regularized Int) | mod (m : Modified Int)
   | pre (m : Precomputed Int) | block (m : Block2 Int) | diff (m : Difference Int)
-  | partly (m : Partly Int)
+  | partly (m : Partly Int) (n : Nat) | gauss (m : Gaussian Int) | exmod (m : ExMod Int) (swapsScale : Bool)
 
 namespace W
 def entry : W → Nat → Nat → Int
   | kernel m, i, j => m.entry i j | reg m, i, j => m.entry i j | mod m, i, j => m.entry i j
   | pre m, i, j => m.entry i j | block m, i, j => m.entry i j | diff m, i, j => m.entry i j
-  | partly m, i, j => m.entry i j
+  | partly m _, i, j => m.entry i j | gauss m, i, j => m.entry i j | exmod m _, i, j => m.entry i j
 def row : W → Nat → Nat → Nat → List Int
   | kernel m, k, s, e => m.row k s e | reg m, k, s, e => m.row k s e | mod m, k, s, e => m.row k s e
   | pre m, k, s, e => m.row k s e | block m, k, s, e => m.row k s e | diff m, k, s, e => m.row k s e
-  | partly m, k, s, e => (List.range (e - s)).map fun d => m.entry k (s + d)
+  | partly m n, k, s, e => ((m.row n k).drop s).take (e - s)      -- whole-row read, then the range
+  | gauss m, k, s, e => m.row k s e | exmod m _, k, s, e => m.row k s e
 def flip : W → Nat → Nat → W
   | kernel m, i, j => kernel (m.flip i j) | reg m, i, j => reg (m.flip i j) | mod m, i, j => mod (m.flip i j)
   | pre m, i, j => pre (m.flip i j) | block m, i, j => block (m.flip i j) | diff m, i, j => diff (m.flip i j)
-  | partly m, _, _ => partly m
+  | partly m n, _, _ => partly m n | gauss m, i, j => gauss (m.flip i j)
+  | exmod m sw, i, j => exmod (m.flip sw i j) sw
+/-- `matrix()` as written; `hf` = does `KernelMatrix::matrix` honour flips (read off the source) -/
+def matrix (hf : Bool) (size : Nat) : W → Nat → Nat → Option Int
+  | kernel m, i, j => some (m.matrix hf i j) | reg m, i, j => some (m.matrix hf i j)
+  | mod m, i, j => some (m.matrix hf i j)
+  | block m, i, j => some (m.entry i j) | diff m, i, j => some (m.entry i j)
+  | gauss m, i, j => (m.matrix size i)[j]?
+  | exmod m _, i, j => some (m.entry i j)
+  | _, _, _ => none
 end W
+
+def wOps : BaseOps W Int := ⟨W.entry, W.row, W.flip⟩
 
 structure WSt where
   n : Nat := 0
@@ -46,6 +69,10 @@ structure WSt where
   diag : Array Nat := #[]
   w : Option W := none
   size : Nat := 0
+  /-- source flags: `KernelMatrix::matrix` honours flips; `ExampleModifiedKernelMatrix` flips its scaling -/
+  k2fixed : Bool := false
+  exfixed : Bool := false
+  cm : Option (CMG W Int) := none
 
 /-- linear kernel on the integer points (coordinates were sent with offset 8) -/
 def WSt.k (s : WSt) (a b : Nat) : Int :=
@@ -53,15 +80,44 @@ def WSt.k (s : WSt) (a b : Nat) : Int :=
 
 structure St where
   n   : Nat := 0
-  cm  : CM Int := CM.init 0 baseEntry 0
+  cm  : CMG (SharkVerif.KM.Kernel Int) Int := CMG.init 0 (SharkVerif.KM.Kernel.init baseEntry) 0
   ctr : Nat := 0
   ws  : WSt := {}
 
+def synthOps : BaseOps (SharkVerif.KM.Kernel Int) Int :=
+  ⟨SharkVerif.KM.Kernel.entry, SharkVerif.KM.Kernel.row, SharkVerif.KM.Kernel.flip⟩
+
 def freshVal (ctr i c : Nat) : Int := (ctr * 512 + i * 40 + c : Nat)
+
+/-- the client operations of a `CachedMatrix` over any base -/
+def cmStep {B : Type} (ops : BaseOps B Int) (cm : CMG B Int) (op : String) (a : List Nat) :
+    Option (CMG B Int × String) :=
+  let st (c : CMG B Int) (r : String) := some (c, r ++ showState c.n c.cache)
+  match op, a with
+  | "row", [k, stop] =>
+    match CMG.row ops junk cm k 0 stop with
+    | some c => st c (s!"R={showList (c.cache.core.lines k)} ")
+    | none => some (cm, "FAULT")
+  | "rows", [k, start, stop] =>
+    match CMG.rowStorage ops junk cm k start stop with
+    | some l => st cm (s!"R={showList l} ")
+    | none => some (cm, "FAULT")
+  | "entry", [i, j] => st cm (s!"R={ops.entry cm.w i j} ")
+  | "flip", [i, j] =>
+    match CMG.flip ops cm i j with
+    | some c => st c ""
+    | none => some (cm, "FAULT")
+  | "maxidx", [m] => st (cm.setMaxCachedIndex m) ""
+  | "clear", [] => st cm.clear ""
+  | _, _ => none
 
 open SharkVerif.KM in
 def wstep (s : WSt) (op : String) (args : List String) : WSt × String :=
   match op, args with
+  | "wflags", _ =>
+    match args.mapM String.toNat? with
+    | some [a, b] => ({ s with k2fixed := a != 0, exfixed := b != 0 }, "ok")
+    | _ => (s, "bad-op")
   | "wdata", _ =>
     match args.mapM String.toNat? with
     | some (n :: d :: _bs :: rest) =>
@@ -69,33 +125,39 @@ def wstep (s : WSt) (op : String) (args : List String) : WSt × String :=
       let xs : List Int := (rest.take (n * d)).map fun (v : Nat) => (v : Int) - 8
       let labs := (rest.drop (n * d)).take n
       let dg := rest.drop (n * d + n)
-      ({ n := n, d := d, pts := xs.toArray, labels := labs.toArray, diag := dg.toArray, w := none, size := 0 }, "ok")
+      ({ s with n := n, d := d, pts := xs.toArray, labels := labs.toArray, diag := dg.toArray, w := none,
+                size := 0, cm := none }, "ok")
     | _ => (s, "bad-op")
-  | "wgauss", _ => (s, "R=ok")     -- oracle-only op (GaussianKernelMatrix is not modelled)
+  | "wgauss", _ => (s, "R=ok")     -- toleranced oracle-only op (GaussianKernelMatrix vs GaussianRbfKernel)
   | "wmk", ty :: rest =>
     match rest.mapM String.toNat? with
     | none => (s, "bad-op")
     | some a =>
       let k := s.k
-      let mk (w : W) (size : Nat) : WSt × String := ({ s with w := some w, size := size }, s!"size={size}")
+      let mk (w : W) (size : Nat) : WSt × String := ({ s with w := some w, size := size, cm := none }, s!"size={size}")
+      let rec pairs : List Nat → List (Nat × Nat)
+        | i :: j :: r => (i, j) :: pairs r
+        | _ => []
       match ty, a with
       | "kernel", _ => mk (.kernel (Kernel.init k)) s.n
       | "reg", _ => mk (.reg (Regularized.init k fun i => (s.diag[i]! : Int))) s.n
       | "mod", [e, n] => mk (.mod (Modified.init k (fun i => s.labels[i]!) (e : Int) (n : Int))) s.n
       | "pre", fl =>
         if fl.length % 2 != 0 then (s, "bad-op") else
-        -- flips applied to the base before precomputation
-        let rec pairs : List Nat → List (Nat × Nat)
-          | i :: j :: r => (i, j) :: pairs r
-          | _ => []
+        -- flips applied to the base before `PrecomputedMatrix(base)` calls `base->matrix(...)`
         let base := (pairs fl).foldl (fun b p => b.flip p.1 p.2) (Kernel.init k)
-        mk (.pre (Precomputed.init base.entry)) s.n
+        mk (.pre (Precomputed.init (base.matrix s.k2fixed))) s.n
       | "block", _ => mk (.block (Block2.init (Kernel.init k).entry s.n)) (2 * s.n)
       | "diff", ps =>
         if ps.length % 2 != 0 || ps.isEmpty then (s, "bad-op") else
         let arr := ps.toArray
         mk (.diff (Difference.init k fun i => (arr[2 * i]!, arr[2 * i + 1]!))) (ps.length / 2)
-      | "partly", [bytes] => mk (.partly (Partly.init (Kernel.init k).entry s.n bytes 0)) s.n
+      | "partly", [bytes] => mk (.partly (Partly.init (Kernel.init k).entry s.n bytes 8) s.n) s.n
+      | "gauss", [_, _] => mk (.gauss (Gaussian.init k id)) s.n       -- observed through the decoded distance
+      | "exmod", sc =>
+        if sc.length != s.n then (s, "bad-op") else
+        let arr := sc.toArray
+        mk (.exmod (ExMod.init k fun i => ((2 ^ arr[i]! : Nat) : Int)) s.exfixed) s.n
       | _, _ => (s, "bad-op")
   | _, _ =>
     match s.w, args.mapM String.toNat? with
@@ -105,9 +167,23 @@ def wstep (s : WSt) (op : String) (args : List String) : WSt × String :=
       | "wentry", [i, j] => (s, s!"R={w.entry i j}")
       | "wrow", [k, st, e] => (s, s!"R={showList (w.row k st e)}")
       | "wmatrix", [] =>
-        let all := (List.range s.size).flatMap fun i => (List.range s.size).map fun j => w.entry i j
-        (s, s!"R={showList all}")
-      | _, _ => (s, "bad-op")
+        let all := (List.range s.size).flatMap fun i => (List.range s.size).map fun j => w.matrix s.k2fixed s.size i j
+        match all.mapM id with
+        | some l => (s, s!"R={showList l}")
+        | none => (s, "bad-op")
+      | "wcache", [cap] =>
+        let cm : CMG W Int := CMG.init s.size w cap
+        ({ s with cm := some cm }, showState s.size cm.cache)
+      | _, _ =>
+        -- c<op>: the CachedMatrix on top of the wrapper
+        match s.cm with
+        | some cm =>
+          if op.startsWith "c" then
+            match cmStep wOps cm (op.drop 1).toString a with
+            | some (cm', o) => ({ s with cm := some cm', w := some cm'.w }, o)
+            | none => (s, "bad-op")
+          else (s, "bad-op")
+        | none => (s, "bad-op")
     | _, _ => (s, "bad-op")
 
 def step (s : St) (line : String) : St × String :=
@@ -116,36 +192,29 @@ def step (s : St) (line : String) : St × String :=
   match toks with
   | [] => (s, "")
   | op :: args =>
-    if op.startsWith "w" then
+    if op.startsWith "w" || (op.startsWith "c" && op != "clear") then
       let (ws, o) := wstep s.ws op args
       ({ s with ws := ws }, o)
     else
     match args.mapM String.toNat? with
     | none => (s, "bad-op")
     | some a =>
-      let st (cm : CM Int) (r : String) : St × String :=
+      let st (cm : CMG (SharkVerif.KM.Kernel Int) Int) (r : String) : St × String :=
         ({ s with cm := cm }, r ++ showState s.n cm.cache)
+      let raw (c : LRUP Int) : St × String := st { s.cm with cache := c } ""
       match op, a with
       | "new", [n, cap] =>
-        let cm := CM.init n baseEntry cap
+        let cm : CMG (SharkVerif.KM.Kernel Int) Int := CMG.init n (SharkVerif.KM.Kernel.init baseEntry) cap
         ({ s with n := n, cm := cm, ctr := 0 }, showState n cm.cache)
-      | "row", [k, stop] =>
-        let cm := s.cm.row k 0 stop
-        st cm (s!"R={showList (cm.cache.lines k)} ")
-      | "rows", [k, start, stop] =>
-        st s.cm (s!"R={showList (s.cm.rowStorage k start stop)} ")
-      | "entry", [i, j] => st s.cm (s!"R={s.cm.entry i j} ")
-      | "flip", [i, j] => st (s.cm.flip i j) ""
-      | "maxidx", [m] => st (s.cm.setMaxCachedIndex m) ""
-      | "clear", [] => st s.cm.clear ""
       -- raw LRU operations on the cache of the current matrix
-      | "get", [i, size] =>
-        st { s.cm with cache := s.cm.cache.getCacheLine i size (freshVal s.ctr i) } ""
-      | "resize", [i, size] =>
-        st { s.cm with cache := s.cm.cache.resizeLine i size (freshVal s.ctr i) } ""
-      | "mark", [i] => st { s.cm with cache := s.cm.cache.markForDeletion i } ""
-      | "swap", [i, j] => st { s.cm with cache := s.cm.cache.swapLineIndices i j } ""
-      | _, _ => (s, "bad-op")
+      | "get", [i, size] => raw (s.cm.cache.getCacheLine i size (freshVal s.ctr i))
+      | "resize", [i, size] => raw (s.cm.cache.resizeLine i size (freshVal s.ctr i))
+      | "mark", [i] => raw (s.cm.cache.markForDeletion i)
+      | "swap", [i, j] => raw (s.cm.cache.swapLineIndices i j)
+      | _, _ =>
+        match cmStep synthOps s.cm op a with
+        | some (cm, o) => ({ s with cm := cm }, o)
+        | none => (s, "bad-op")
 
 partial def loop (h : IO.FS.Stream) (out : IO.FS.Stream) (s : St) : IO Unit := do
   let line ← h.getLine
